@@ -174,6 +174,8 @@ class WrapperReader(GateReader):
             return ("bound", {p: bound[p] for p in self.PARAMS if p in bound})
         if base == ("module", "functools") and attr == "wraps":
             return ("identity-decorator", )
+        if isinstance(base, tuple) and base and base[0] == "bound" and attr == "apply_defaults" and not args:
+            return None  # the modelled function (a, b, c) has no defaults
         return super().hook_method(base, attr, args, kwargs, n)
 
     def hook_call(self, n, env, fns):
@@ -263,7 +265,9 @@ def _k2(run: Run, w: World) -> None:
                                                                     ("validate_output, bare number returned", "validate_output", [DA], [va, vb, vc], {}, DA, 5),
                                                                     ("validate_output, sequence returned", "validate_output", [DA], [va, vb, vc], {}, DA, [va, 7]),
                                                                     ("validate_output_same positional", "validate_output_same", ["b"], [va, vb, vc], {}, vb, None),
-                                                                    ("validate_output_same keyword", "validate_output_same", ["b"], [va], {"c": vc, "b": vb}, vb, None)):
+                                                                    ("validate_output_same keyword", "validate_output_same", ["b"], [va], {"c": vc, "b": vb}, vb, None),
+                                                                    # a bare zero as the reference argument is legal (zero matches any dimension) - and falsy: it is a value, not a "not found" flag
+                                                                    ("validate_output_same, reference is a bare zero", "validate_output_same", ["b"], [va, 0, vc], {}, 0, None)):
         run.ob("K2", label)
         R = WrapperReader(m.tree)
         if result is not None:
